@@ -163,12 +163,23 @@ def oracle_step(before, after, op, failed):
         return msgs
     items = [n for n in op["nodes"] if op["kd"] or n[1] == 0]
     if t in ("C", "A"):
-        want = ([] if t == "C" else list(before)) + [fresh(n, op["kt"]) for n in items]
+        # collect_items (fix 4cfc8ff5): overlapping file arguments (-r t t/a, ./t/a t/a) reach a path more than once; the
+        # item of an entry name is the FIRST walked path with that name (names compared as stored: EntryName::from_lossy
+        # keeps the normal components only, so t/a, ./t/a and t//a are one name)
+        first = {}
+        for n in items:
+            first.setdefault(sanitize(n[0]), n)
+        want = ([] if t == "C" else list(before)) + [fresh(n, op["kt"]) for n in first.values()]
         if after != want:
+            cmd = "append" if t == "A" else "create"
+            new = after[len(before):] if t == "A" else after
+            twice = sorted({e[0] for e in new if sum(1 for x in new if x[0] == e[0]) > 1})
             if t == "A" and after[:len(before)] != before:
                 msgs.append("append: the previous entries are not all there, unchanged and in order")
+            elif twice:
+                msgs.append("%s: a walked path is archived more than once by one command (duplicate new entries: %s)" % (cmd, ", ".join(twice[:4])))
             else:
-                msgs.append("%s: the new entries are not exactly the walked items, in order" % ("append" if t == "A" else "create"))
+                msgs.append("%s: the new entries are not exactly the first walked item of every entry name, in order" % cmd)
         return msgs
     # update
     named = {}
